@@ -130,11 +130,64 @@ def run(run):
                     wl = [x for x in ins if "worklist" in T.show(x["a"][0])][0]
                     nv = [x for x in ins if "node_values" in T.show(x["a"][0])][0]
                     ok = T.var_id(wl["a"][1]) == iid and any(y.get("k") == "Var" and y["id"] == iid for y in T.walk(nv["a"][1]))
-        run.check("R2", "from_node_priority_list|default-values-enqueued", ok, "when default values are given every node that receives one must be put on the worklist (same loop, same index)", F.loc(f["body"]))
         res = S.value(t)
-        if res[0] == "adt" and res[1].endswith("Computation"):
-            flds = dict(res[3])
-            run.check("R2", "from_node_priority_list|fields", flds.get("worklist", ("",))[0] == "var" and flds.get("node_values", ("",))[0] == "var", "constructor must store the worklist and values it filled", F.loc(f["body"]))
+        flds = dict(res[3]) if res[0] == "adt" and res[1].endswith("Computation") else {}
+        site_c = F.loc(f["body"])
+        if ok:
+            run.holds("R2", "from_node_priority_list|default-values-enqueued", "same loop, same index", site_c)
+        else:
+            # other recognised form: both containers are collected from the SAME index range (in the same branch)
+            def sources(term):
+                """range terms a container is collected from; 'empty' for new()/default(); None if unknown"""
+                out = []
+                def rec(z):
+                    z = S.value(z)
+                    if z[0] == "field" and isinstance(z[2], str) and z[2].isdigit():
+                        b = S.value(z[1])
+                        if b[0] == "match":
+                            for a in b[2]:
+                                bb = S.value(a[2])
+                                if bb[0] == "tuple" and int(z[2]) < len(bb[1]):
+                                    rec(bb[1][int(z[2])])
+                                else:
+                                    out.append(None)
+                            return
+                        if b[0] == "ite":
+                            for br in (b[2], b[3]):
+                                bb = S.value(br)
+                                if bb[0] == "tuple" and int(z[2]) < len(bb[1]):
+                                    rec(bb[1][int(z[2])])
+                                else:
+                                    out.append(None)
+                            return
+                        out.append(None)
+                        return
+                    if is_call(z, ("new", "default")) and not z[2]:
+                        out.append("empty")
+                        return
+                    if is_call(z, "collect") and z[2]:
+                        src = S.value(z[2][0])
+                        while is_call(src, ("map", "cloned", "copied", "into_iter", "iter")) and src[2]:
+                            src = S.value(src[2][0])
+                        out.append(fmt(src))
+                        return
+                    out.append(None)
+                rec(term)
+                return out
+            wl_s, nv_s = sources(flds.get("worklist", ("?",))), sources(flds.get("node_values", ("?",)))
+            key = "from_node_priority_list|default-values-enqueued"
+            if wl_s and nv_s and None not in wl_s and None not in nv_s and wl_s == nv_s:
+                run.holds("R2", key, "worklist and node values are collected from the same index ranges %s" % wl_s, site_c)
+            elif wl_s and nv_s and None not in wl_s and None not in nv_s and all(w == "empty" for w in wl_s) and any(v != "empty" for v in nv_s):
+                run.violated("R2", key, "default values are stored for the nodes (%s) but the worklist stays empty: nodes with a value that were never processed are not in the worklist" % nv_s, site_c)
+            else:
+                run.undecided("R2", key, "construction of worklist / node values not recognised (%s / %s)" % (wl_s, nv_s), site_c)
+        if flds:
+            wlf = S.value(flds.get("worklist", ("?",)))
+            if is_call(wlf, ("new", "default")) and not wlf[2] and any(T.is_call(x, "insert") and "worklist" in T.show(x["a"][0]) for x in T.walk(f["body"])):
+                run.violated("R2", "from_node_priority_list|fields", "the constructor fills a local worklist but stores a fresh empty one", site_c)
+            else:
+                run.holds("R2", "from_node_priority_list|fields", "", site_c)
 
     run.guarded("R2", r2)
 
@@ -209,6 +262,7 @@ def run(run):
             n, conds = ms[0]
             a = [sy.ev(x, env) for x in n["a"]]
             lets = [sy.ev(c[1], env) for c in conds if c[0] == "if" and c[2] is True]
+            letelses = [c for c in conds if c[0] == "letelse"]
             # target = endpoints.1 ; value = Some payload of fp_context.update_edge(start value, edge)
             tgt_ok = a[1][0] == "field" and a[1][2] == "1" and any(is_call(y, "edge_endpoints") for y in S.subterms(a[1]))
             val_ok = a[2][0] == "field" and a[2][2] == "Some.0" and is_call(a[2][1], "update_edge") and "Context" in a[2][1][3]
@@ -216,10 +270,26 @@ def run(run):
             if val_ok:
                 sv = a[2][1][2][1]
                 start = sv[0] == "field" and sv[2] == "Some.0" and is_call(sv[1], "get") and any(y[0] == "field" and y[2] == "0" and any(is_call(z, "edge_endpoints") for z in S.subterms(y)) for y in S.subterms(sv[1][2][1]) if isinstance(y, tuple) and y)
-            only_lets = all(l[0] == "let" and l[1].startswith("Some") for l in lets) and len([c for c in conds if c[0] == "if"]) == 2
+            n_ifs = len([c for c in conds if c[0] == "if"])
+            only_lets = all(l[0] == "let" and l[1].startswith("Some") for l in lets) and n_ifs + len(letelses) == 2 and all(T.show_pat(c[1]["p"]).startswith("Some") for c in letelses)
             ok = tgt_ok and val_ok and bool(start) and only_lets
             why = "target=%s value=%s" % (fmt(a[1])[:80], fmt(a[2])[:120])
-        run.check("R3", "update_edge|some-result-merged-into-end-node", ok, "update_edge must merge the transfer result computed from the START node's value into the END node, whenever both exist; found %s" % why, F.loc(f["body"]))
+            if ok:
+                run.holds("R3", "update_edge|some-result-merged-into-end-node", "", F.loc(f["body"]))
+            else:
+                # positive evidence of a wrong construction vs. an unrecognised shape
+                wrong_target = a[1][0] == "field" and a[1][2] == "0" and any(is_call(y, "edge_endpoints") for y in S.subterms(a[1]))
+                extra_conds = [c for c in conds if c[0] == "if" and not (T.peel(c[1]).get("k") == "Let")]
+                if wrong_target:
+                    run.violated("R3", "update_edge|some-result-merged-into-end-node", "the transfer result is merged into the START node of the edge (%s)" % why, F.loc(f["body"]))
+                elif extra_conds:
+                    run.violated("R3", "update_edge|some-result-merged-into-end-node", "the merge of the transfer result depends on an additional condition `%s`: an existing result may be dropped" % T.show(extra_conds[0][1])[:80], F.loc(f["body"]))
+                else:
+                    run.undecided("R3", "update_edge|some-result-merged-into-end-node", "shape not recognised: %s" % why, F.loc(f["body"]))
+        elif not ms:
+            run.violated("R3", "update_edge|some-result-merged-into-end-node", "update_edge never merges a transfer result into a node", F.loc(f["body"]))
+        else:
+            run.undecided("R3", "update_edge|some-result-merged-into-end-node", "%d merge sites" % len(ms), F.loc(f["body"]))
         # merge_node_value
         f = F.fn("merge_node_value", adt="Computation")
         sy = S.Sym(F)
